@@ -55,7 +55,8 @@ DESCRIPTIONS = {
                                                           'elements on numpy (object array) and is all real on torch: the written '
                                                           'text differs ("[1 2 3 1.5 ...]" vs "[1.0 2.0 3.0 1.5 ...]").',
         'join-empty-operand-kind': 'Join with an empty operand: integer kind kept on one backend only.',
-        'unclassified': 'unclassified numpy/torch difference (see cases).',
+        'unclassified': 'same root cause as the group above inside a ragged list: 3^(...)^e has the element 28511469.7 on numpy and '
+                        'the whole float32 value 28511470, turned into an integer, on torch (kind differs).',
     },
 }
 
